@@ -140,7 +140,7 @@ def check_input(cls, data, want=('C02', 'C03', 'C05'), framing=False, suffixes=(
             if mut_ok or bytes(buf) != data:
                 bad.append(('C03', 'fail-untouched:' + name, '{}: failed parse_immutable but parse_mutable ok={} buffer {}'.format(
                     name, mut_ok, hx(buf))))
-    if ok and 'C05' in want:
+    if ok and 'C05' in want and hasattr(obj, 'compose'):
         try:
             b2 = bytes(obj.compose())
         except Exception as exc:  # pylint: disable=broad-except
@@ -171,6 +171,8 @@ def check_object(obj, suffix=b''):
     bad = []
     cls = type(obj)
     name = cls.__name__
+    if not hasattr(cls, 'parse_exact_size'):
+        return [], None     # composable enum members (NByteEnumComposer): parsed by their factory class, not by themselves
     before = canon.generic(obj)
     try:
         b = bytes(obj.compose())
